@@ -559,7 +559,11 @@ class Symex:
                 return ("closure", kind["key"], vals)
             raise Unanalysable("aggregate %s" % list(kind))
         if k == "repeat":
-            return ("repeat", self.canon(st, self.operand(fn, st, fu, rv[1])), rv[2])
+            v = self.canon(st, self.operand(fn, st, fu, rv[1]))
+            m = re.match(r"^(\d+)(_usize)?$", str(rv[2]).strip())
+            if m and int(m.group(1)) <= 16:
+                return ("array", (v,) * int(m.group(1)))      # `[x; N]` with a small literal N: the N elements
+            return ("repeat", v, rv[2])
         return ("opaque", str(rv)[:80])
 
     def binop(self, st, op, a, b):
@@ -885,6 +889,10 @@ def m_cmp(op, flip=False, neg=False):
                 x, y = d[a[2]], d[b[2]]
                 r = {"lt": x < y, "le": x <= y, "eq": x == y}[op]
                 return _ret(st, ("const", (not r) if neg else r))
+        if ex.fold_ground_eq and op == "eq":
+            # `&x == &y` compares the referents
+            while a[0] == "&" and b[0] == "&":
+                a, b = a[1], b[1]
         if ex.fold_ground_eq and op == "eq" and ground(a) and ground(b) and (a[0] == "adt" or b[0] == "adt"):
             # derived / core PartialEq on fully concrete enum / struct values (e.g. Option<CoordPos>): structural equality
             r = a == b
